@@ -402,6 +402,13 @@ class DirectoryNodeHandler(ReplaceMeMixin, Resource, object):
                 return PlaceHolderNodeHandler(self.client, self.node, name)
             else:
                 node = node_or_failure
+                if IDirectoryNode.providedBy(node):
+                    # name= names a child of *this* directory, so the upload
+                    # replaces that child (subject to replace=) like any
+                    # other. The child directory's own handler would look
+                    # the same name up again inside the child, and never
+                    # return if the child links back to itself under it.
+                    return PlaceHolderNodeHandler(self.client, self.node, name)
                 return make_handler_for(node, self.client, self.node, name)
         d.addBoth(_maybe_got_node)
         # now we have a placeholder or a filenodehandler, and we can just
